@@ -64,7 +64,12 @@
 //   - a keyed composite literal `T{f: v, …}` of a translated struct type is a
 //     Lean structure instance (field values evaluated in source order, omitted
 //     fields zero, fields of abstract type left out as in the structure
-//     itself); `&T{…}` is `some` of it.
+//     itself); `&T{…}` is `some` of it;
+//   - with "trace", a store to a map element `m[k] = v` is an effect recorded
+//     as ("set m[k]", [k, fields of v…]) (scalar fields of a translated struct
+//     in declaration order, "nil" for a nil pointer); a store to a field of
+//     abstract type of a translated struct (`rec.Time = start`) is recorded
+//     like a write to an abstract object: ("set rec.Time", ["start"]).
 //
 // Anything else is a translation error: the generated definition is replaced
 // by a marker that makes the Tie theorem fail, i.e. a broken obligation.
@@ -1735,6 +1740,9 @@ func (c *fctx) abstractTarget(lhs ast.Expr) bool {
 			return false
 		}
 	}
+	if sel := c.p.info.Selections[se]; sel != nil && sel.Kind() == types.FieldVal && c.t.isAbstract(sel.Obj().Type()) {
+		return true // a field of abstract type in a translated struct (`rec.Time = start`)
+	}
 	return c.t.isAbstract(c.typeOf(se.X)) || c.abstractTarget(se.X)
 }
 
@@ -1773,8 +1781,48 @@ func (c *fctx) assignCode(lhs ast.Expr, code string, k func() string) string {
 		b := leanIdent(base.Name)
 		return fmt.Sprintf("let %s := { %s with %s := %s }\n", b, b, f, code) + k()
 	}
+	if ix, ok := lhs.(*ast.IndexExpr); ok && c.trace {
+		if _, isMap := c.typeOf(ix.X).Underlying().(*types.Map); isMap {
+			c.opaqueVals = nil
+			return fmt.Sprintf("let tr := tr ++ [(%q, [%s] ++ %s)]\n", "set "+c.show(lhs), c.traceArg(ix.Index), c.renderVal(code, c.lhsType(lhs))) + k()
+		}
+	}
 	fail("assignment target %s", c.show(lhs))
 	return ""
+}
+
+// renderVal renders a value for the trace: a list of texts (the scalar fields
+// of a struct in declaration order).
+func (c *fctx) renderVal(code string, t types.Type) string {
+	scalar := func(code string, t types.Type) string {
+		switch c.t.leanType(t) {
+		case "String":
+			return code
+		case "Int", "Bool":
+			return "(toString " + code + ")"
+		}
+		return ""
+	}
+	if r := scalar(code, t); r != "" {
+		return "[" + r + "]"
+	}
+	st, ptr := t, false
+	if p, ok := t.(*types.Pointer); ok {
+		st, ptr = p.Elem(), true
+	}
+	if s, ok := st.Underlying().(*types.Struct); ok && c.t.leanType(t) != "" {
+		var fs []string
+		for i := 0; i < s.NumFields(); i++ {
+			if r := scalar("v."+leanIdent(s.Field(i).Name()), s.Field(i).Type()); r != "" {
+				fs = append(fs, r)
+			}
+		}
+		if ptr {
+			return "(match " + code + " with | none => [\"nil\"] | some v => [" + strings.Join(fs, ", ") + "])"
+		}
+		return "(let v := " + code + "; [" + strings.Join(fs, ", ") + "])"
+	}
+	return "[\"_\"]"
 }
 
 // ---------------------------------------------------------------------------
